@@ -227,8 +227,9 @@ def harness(h):
                 c.same_results(lambda A, **k: S.sift_second_layer(A, **k), [(IA,)], sift_args=args)
             else:
                 args.update(mask_amp=0.5, mask_amp_mode='abs', nphases=1)
+                c.same_results(lambda A, **k: S.mask_sift_second_layer(A, [0.3, 0.125, 0.05], **k), [(IA,)], sift_args=dict(args))
                 args.pop('max_imfs')
-                c.same_results(lambda A, **k: S.mask_sift_second_layer(A, [0.3, 0.125, 0.05], **k), [(IA,)], sift_args=args)
+                c.same_results(lambda A, **k: S.mask_sift_second_layer(A, [0.3, 0.125, 0.05], **k), [(IA,)], sift_args=dict(args))
         elif e == 'envelope':
             c.same_results(lambda X, **k: S.interp_envelope(X, mode='upper', **k), [(x,), (col,)], extrema_opts={'pad_width': 2})
         elif e == 'extrema':
